@@ -14,9 +14,9 @@ import (
 
 func init() {
 	vfHarnesses["C20_deques"] = vfH_C20_deques
-	vfHarnesses["C20_deques7"] = vfH_C20_deques7
+	vfHarnesses["C20_deques6"] = vfH_C20_deques6
 	vfHarnesses["C20_ring"] = vfH_C20_ring
-	vfHarnesses["C20_ring8"] = vfH_C20_ring8
+	vfHarnesses["C20_ring7"] = vfH_C20_ring7
 }
 
 // vfDeque: token-indexed view of one of the deques (token -1 = nil).
@@ -150,7 +150,7 @@ func vfDequeManager(base, nodes, size int32) *vfDeque {
 }
 
 func vfH_C20_deques()  { vfC20Deques(5, 2) }
-func vfH_C20_deques7() { vfC20Deques(7, 4) }
+func vfH_C20_deques6() { vfC20Deques(6, 4) }
 
 func vfC20Deques(nops int, nparams int) {
 	// constructor parameters (base nodes, nodes, first node size): two / four corners
@@ -238,7 +238,7 @@ func vfC20Deques(nops int, nparams int) {
 // ---------------------------------------------------------------------------
 
 func vfH_C20_ring()  { vfC20Ring(5) }
-func vfH_C20_ring8() { vfC20Ring(8) }
+func vfH_C20_ring7() { vfC20Ring(7) }
 
 func vfC20Ring(nops int) {
 	prio := vfChoice("kind", 2) == 1
